@@ -19,3 +19,5 @@ def run(ctx, rep):
     more4.rule_lstres_reset(mod, rep)
     from ..rules import more4
     more4.rule_extent_pairs(mod, rep)
+    from ..rules import more5
+    more5.rule_zero_skip(mod, rep)
